@@ -139,6 +139,38 @@ CLAIMS = {
         "Not decided: broadcasting at size 1, run-time integer results, per-plugin shape arithmetic. The optimizer side (two symbols never equal) is C02 R-C02c. The memo-key collision was repaired (fix c1479e1).",
         "DESIGN.md §3 C04",
     ),
+    "C03": (
+        "name-provenance classification of every value name (def-use through helpers), who-may-create / who-may-write checks on lowering contexts and initializer lists, must-pass check of the nested-scope prefixing",
+        "All ~1800 places where lowering or optimizer code names a value (`_outputs=[...]`, ir.Value(name=...)) are classified as fresh / existing / derived / parameter / interface / literal; a literal name at a site that can run "
+        "more than once per graph scope is a duplicate definition. Lowering contexts may only be created by the three scope constructors, and make_subgraph_context must wrap BOTH name allocators with a parent-derived prefix on "
+        "every path (uniqueness at any nesting depth, which example-based regression tests cannot settle). Initializer lists are written only through function-mode aware entry points; collected functions are attached with "
+        "their domain imports.",
+        "Not decided: onnx.checker / strict shape inference / ORT load results, def-before-use of every value, call-node arity. Names derived from node names rely on the name-fix pass running first.",
+        "DESIGN.md §3 C03",
+    ),
+    "C06": (
+        "def-use across the cond branch extraction and If emission, dominance of rejection guards, data-provenance of Loop entry inputs",
+        "JAX stores cond branches as (false, true): element 1 must reach then_branch and element 0 else_branch of the emitted If; reverse scans, inconsistent arity / scanned extents, missing jaxprs and N-way switches must raise "
+        "before anything is emitted; bodies go through the checked dispatcher; while_loop's initial Loop condition must be the cond jaxpr evaluated on the initial state (the structural necessary condition for zero-iteration "
+        "loops, a path no pinned test executes); scan / fori trip counts must derive from the length / trip_count parameter or the scanned extent.",
+        "Not decided: actual trip counts, carried-value wiring, stacked outputs, zero-trip results - they need execution.",
+        "DESIGN.md §3 C06",
+    ),
+    "C08": (
+        "guard / provenance analysis of every annotation write in export post-processing + pairing of payload and type writes on the CFG",
+        "Post-processing may assign a `.shape` only to non-interface values (never reached from the true edge of the io-name test) and only with the result of _unknown_shape_like, which must turn every dimension into None or "
+        "keep it (via a _normalize_dim that returns the same dimension); replacing a constant's payload must be followed by the matching `.type` assignment on every path.",
+        "Not decided: the truth of annotations stamped by ~600 plugins and of the optimizer's metadata refresh (later propagate passes re-derive most shapes, so a missing in-step refresh is not statically a wrong final annotation).",
+        "DESIGN.md §3 C08",
+    ),
+    "C16": (
+        "exit-path analysis of the plugin lookup, CFG-based swallow lint over every broad non-re-raising handler around emitting code, structural check of the optimizer failure policy",
+        "A failed plugin lookup must raise on every path; a broad handler around node emission / binding / sub-jaxpr lowering that does not re-raise must fall through to another lowering, binding or raise before a normal return "
+        "(never a silently partial lowering); optimizer failures must re-raise under the strict switch (argument first, then environment) and be logged otherwise; dimension symbols without origin must raise before emission. "
+        "Rejection of unsupported control-flow variants is C06 R-C06b, unknown dimension operations C04 R-C04b, dispatch stages C01 R-C01c.",
+        "Not decided: validity of the model when an optimizer pass aborts mid-rewrite (crash points inside a pass).",
+        "DESIGN.md §3 C16",
+    ),
 }
 
 NOT_APPLICABLE = {
